@@ -257,6 +257,10 @@ class Norm(object):
             if short in ('ceil', 'floor', 'sqrt', 'round', 'abs') and fn in (short, 'math.' + short, 'np.' + short):
                 if short == 'round' and len(args) == 1:
                     args.append(Rat.const(0))
+                if short == 'abs' and len(args) == 1:
+                    neg = -args[0]
+                    if neg.canon() < args[0].canon():      # |x| == |-x|: one atom for both spellings
+                        args = [neg]
                 return self.fatom(short, args)
             if fn in ('min', 'max'):
                 if len(args) == 1:
@@ -278,3 +282,21 @@ class Norm(object):
 
     def info(self, atom):
         return self.fatoms.get(atom)
+
+
+def nonneg(norm, rat, names=()):
+    """True when `rat` is a polynomial whose every term is a non-negative coefficient times a product of atoms that
+    cannot be negative: |..|, len(..), and the given names (sufficient, not necessary)"""
+    if not rat.is_poly():
+        return False
+    for mono, coeff in rat.n.t.items():
+        if coeff < 0:
+            return False
+        for a, _ in mono:
+            info = norm.info(a)
+            if info is not None and info[0] in ('abs', 'len'):
+                continue
+            if a in names:
+                continue
+            return False
+    return True
